@@ -292,7 +292,8 @@ def leak_typestate(m: HdlcModel):
                     bad.setdefault("raw-kept", (st, sp))  # history of the previous frame still there when this frame's octets are added
                 else:
                     r2 = "cur"
-            if post.frame in ("none", "fresh"):
+            boundary = post.frame in ("none", "fresh") or (L.get("F") is True and mode == "empty" and not post.appends)
+            if boundary:
                 m2 = "hunt" if post.frame == "none" else "empty"
                 if p2 == "cur":
                     p2 = "prev"
